@@ -60,6 +60,7 @@ func AddressesFromStreamKey(key []byte) (sdk.AccAddress, sdk.AccAddress) {
 
 // FirstAddressFromStreamStoreKey parses the first address only
 func FirstAddressFromStreamStoreKey(key []byte) sdk.AccAddress {
-	addrLen := key[0]
+	// int, not byte: for a 255 byte address 1+addrLen wrapped around to 0 in byte arithmetic and the slice expression panicked
+	addrLen := int(key[0])
 	return sdk.AccAddress(key[1 : 1+addrLen])
 }
